@@ -5,114 +5,125 @@ HERE = os.path.dirname(os.path.abspath(__file__))
 
 CLAIMED = {
     # id: (level, text, note, technique, design_ref)
-    'C19': ('fault_enumeration',
-            'Seeded writer histories (fit() and filter_output() as writers, 1..4 records, with/without stored fluxes) crossed with '
-            'crash points: every byte offset of every written file in thorough (boundaries +-3, all offsets of small files and a '
-            'seeded sample in quick), plus crash/ENOSPC injected into the live fit() through the open seam and a concurrent reader '
-            'run from inside the writer\'s write/readline events. Evidence, not proof: the history space is sampled, the offsets of '
-            'each sampled history are enumerated.',
-            'Trusts: pickle and numpy of the sandbox; that a crash leaves exactly the bytes whose write() returned plus a prefix of the '
-            'cut write (unbuffered SimFile); ground truth for "written records" is sedfitter\'s reader on the complete file.',
-            'deterministic simulation: seeded histories x enumerated crash offsets, live crash/ENOSPC fault injection via injected open(), observer reads at seam events',
-            'DESIGN.md section 5 (C19)'),
-    'C10': ('exploration',
-            'Seeded simulated runs of the whole writer path: data stream (path or simulated reader, eligible/ineligible lines, short '
-            'terminator lines), output stream under crash/ENOSPC at chosen byte offsets followed by a restart through the delete prompt, '
-            'pre-existing outputs, non-monotone clocks; every record of the final file is compared bit-exactly with an object-interface '
-            'twin, the metadata with the run, sedfitter\'s reader with the raw pickle stream; then histories of up to 3 post-processing '
-            'calls through one channel (path / object / list) are compared with fresh per-call executions on the path, with the caller\'s '
-            'objects and the input file required unchanged. Evidence by seeded search, not proof.',
-            'Trusts the object interface (Fitter.fit + keep) as the reference for record contents; bit-exactness is only demanded between '
-            'two executions of the same code path in one process; zero-byte outputs are outside the quantifier.',
-            'deterministic simulation: seeded scenarios over data/output streams, clock, prompt, crash/ENOSPC + restart, and consumer histories on shared result objects; differential + twin oracles',
-            'DESIGN.md section 5 (C10)'),
     'C05': ('exploration',
             'Model-based history machine on one mutable FitInfo: keep(selector) steps with all six selector forms interleaved with pickle hops, '
             'file hops (FitInfoFile write/read) and consumer hops (write_parameters on the file with its own selector), compared after every '
-            'step with ref_select applied to reference rows captured at creation (every per-fit array), plus the composition clause. Synthetic '
-            'results over an alphabet with ties/1e30/inf/NaN and real fits with duplicate SEDs and confidence-1 limits. Seeded sampling (the '
-            'length<=5 sub-space is sampled many times over), not enumeration.',
+            'step with ref_select applied to reference rows captured at creation (every per-fit array, tagged by row), plus the composition clause. '
+            'Synthetic results over an alphabet with ties/1e30/inf/NaN and real fits with duplicate SEDs and confidence-1 limits. Seeded sampling '
+            '(the length<=5 sub-space is sampled many times over), not enumeration.',
             'Trusts numpy argsort order as the ranking; thresholds equal to an attained value are not judged (the property is silent there).',
             'deterministic simulation: seeded operation histories (keep / pickle hop / file hop / consumer hop) on one shared object against an executable reference model',
             'DESIGN.md section 5 (C05)'),
-    'C09': ('exploration',
-            'Seeded scenarios on a real fit file: the author rewrites parameters.fits[.gz] in other row orders between steps, analysts call '
-            'write_parameters / write_parameter_ranges / extract_parameters / plot_params_1d/2d with selectors and additional-parameter '
-            'dictionaries through a path, one object or a shared list (consumer after consumer on the same objects). Every listed row, range and '
-            'the table handed to the plots is compared with a by-name lookup in the author\'s reference parameters at printed precision.',
-            'Trusts the fit records as given (C10); printed precision bounds the comparison; savefig is stubbed for the parameter plots.',
-            'deterministic simulation: seeded histories of author rewrites and analyst calls over channels, reference-model lookup oracle',
-            'DESIGN.md section 5 (C09)'),
-    'C18': ('exploration',
-            'Seeded scenarios: real fit files of 1..10 sources routed by filter_output into two writers, chi|cpd thresholds over 8 decades, '
-            'explicit or automatic names (found by directory diff), input as path or list, and compositions (a second split of the good/bad '
-            'file). Outputs are read with the harness pickle reader and compared record by record: union, disjointness, order, membership, '
-            'metadata, input untouched.',
-            'Trusts the input records (C10); thresholds equal to an attained value are not judged.',
-            'deterministic simulation: seeded record streams routed to two simulated output files, channels and compositions; partition oracle',
-            'DESIGN.md section 5 (C18)'),
     'C07': ('exploration',
-            'Seeded twin worlds (the same SEDs authored independently as a per-file and as a cube package) under convolver schedules: calls on '
-            'the two packages interleaved, filter sub-sets with overwrite, permuted directory listings, memmap on/off, a crash at the k-th output '
-            'file (optionally leaving a truncated file) followed by a rerun. Every row of every convolved file is compared with SED X pushed '
-            'through sedfitter\'s own rebin in isolation (identity, order, FILTWAV, apertures), the two formats with each other, and the fits '
-            'of three Fitters (v1, v2 memmap off/on) by model name within a derived perturbation bound.',
+            'Seeded twin worlds (the same SEDs authored independently as a per-file and as a cube package; f4/f8, gz, sub-directories, four flux '
+            'units, either spectral order) under convolver schedules: calls on the two packages interleaved, filter sub-sets with overwrite, '
+            'permuted directory listings, memmap on/off, a crash at the k-th output file (optionally leaving a truncated file) followed by a rerun, '
+            'and an analyst running a post-processing function on the package between convolver calls. Every row of every convolved file is '
+            'compared with SED X pushed through sedfitter\'s own rebin in isolation (identity, order, FILTWAV, apertures), the two formats with '
+            'each other, and the fits of three Fitters (v1, v2 memmap off/on) by model name within a derived perturbation bound.',
             'The integral itself is not judged here (C06 unclaimed); tolerances 1e-10 (f8) / 2e-5 (f4); singular regressions and models within '
             '10 delta of a limit point are skipped; the package files are written by the harness, not by sedfitter\'s writers.',
-            'deterministic simulation: seeded twin-package worlds x convolver schedules with listing permutation, knobs, crash+rerun; identity + differential oracles',
-            'DESIGN.md section 5 (C07)'),
+            'deterministic simulation: seeded twin-package worlds x convolver schedules with listing permutation, knobs, crash+rerun and interleaved consumers; identity + differential oracles',
+            'DESIGN.md section 5 (C07), 12.3'),
     'C08': ('exploration',
             'Whole-pipeline simulated runs with a planted truth: photometry synthesised by the harness\'s own exact integrator / aperture '
             'interpolation / extinction law from model m at (A_V0, d0 | scale), then convolve -> fit() -> write_parameters executed on real '
             'code under permuted listings, memmap knob, clock profiles, stream forms, both package formats, both fitting modes, both filter '
-            'storage orders, crash+rerun of the convolve stage and crash/ENOSPC+restart of the fit stage. Oracle: m ranked first, chi^2 within a '
-            'conditioned bound of 0, runner-up above 0.5, A_V and scale within bounds derived from the reference normal matrix, m\'s own '
-            'parameter row printed.',
+            'storage orders, four package flux units, crash+rerun of the convolve stage and crash/ENOSPC+restart of the fit stage, a prelude epoch '
+            '(a previous package run through the same stages in the same directory and process), and the same planting through the object '
+            'interface with another user fitting against another package in between. Oracle: m ranked first, chi^2 within a conditioned bound '
+            'of 0, runner-up above 0.5, A_V and scale within bounds derived from the reference normal matrix, m\'s own parameter row printed.',
             'Degenerate plantings (reference LSQ: another model / grid distance below chi^2 1, singular normal matrix) are discarded and counted; '
             'numeric slack: delta 1e-13 (per-file), 1e-7 (cube, float32 model store), 3e-7 (cube stored f4).',
-            'deterministic simulation: seeded end-to-end pipeline runs with environment knobs and stage crash/restart faults; planted-truth oracle from an independent reference model',
-            'DESIGN.md section 5 (C08)'),
-    'C16': ('exploration',
-            'The memory limit is treated as a tuning knob that must not change the result: for every seeded per-file world and every '
-            'generated wavelength window the monochromatic convolver is run with EVERY chunk size 1..n_wav plus the default, each into a fresh '
-            'convolved/ under a permuted directory listing; the returned table, the set of files, FILTWAV, row order and every cell are compared '
-            'with the author\'s arrays, and a digest of (files, contents) must be identical across chunk sizes. Cube clause: Fitters with '
-            'wavelength "filters" at/between/outside tabulated wavelengths, memmap on/off, cube in either spectral order. Worlds and windows are '
-            'sampled by seed; the chunk-size dimension is enumerated completely for each.',
-            'Window ends that coincide with a tabulated wavelength may go either way (but identically for all chunk sizes); empty windows and '
-            'half-way requests are outside the quantifier; float32 model store tolerance derived from float32 rounding of the flux and of its log10.',
-            'deterministic simulation: seeded worlds/windows x complete enumeration of the chunk-size knob under listing permutation; reference-array and cross-knob differential oracles',
-            'DESIGN.md section 5 (C16)'),
+            'deterministic simulation: seeded end-to-end pipeline runs with environment knobs, same-directory history and stage crash/restart faults; planted-truth oracle from an independent reference model',
+            'DESIGN.md section 5 (C08), 12.3'),
+    'C09': ('exploration',
+            'Seeded scenarios on a real fit file: the author rewrites parameters.fits[.gz] in other row orders between steps, analysts call '
+            'write_parameters / write_parameter_ranges / extract_parameters / plot_params_1d/2d with selectors and additional-parameter '
+            'dictionaries through a path, one object or a shared list (consumer after consumer on the same objects), optionally after a prelude '
+            'epoch in the same directory. Every listed row, range and the table handed to the plots is compared with a by-name lookup in the '
+            'author\'s reference parameters at printed precision.',
+            'Trusts the fit records as given (C10); printed precision bounds the comparison; savefig is stubbed for the parameter plots.',
+            'deterministic simulation: seeded histories of author rewrites and analyst calls over channels, reference-model lookup oracle',
+            'DESIGN.md section 5 (C09)'),
+    'C10': ('exploration',
+            'Seeded simulated runs of the whole writer path: data stream (path or simulated reader, eligible/ineligible lines, short '
+            'terminator lines), output stream under crash/ENOSPC at chosen byte offsets followed by a restart through the delete prompt, '
+            'pre-existing outputs, non-monotone clocks, a prelude epoch (a previous package fitted with another extinction law in the same '
+            'directory and process); every record of the final file is compared bit-exactly with an object-interface twin, the metadata with '
+            'the run, sedfitter\'s reader with the raw pickle stream; then histories of up to 3 post-processing calls (with non-default '
+            'options) through one channel (path / object / list / objects straight from Fitter.fit), optionally after an intruder user fitted '
+            'against another package, are compared with fresh per-call executions on the path, with the caller\'s objects and the input file '
+            'required unchanged. Evidence by seeded search, not proof.',
+            'Trusts the object interface (Fitter.fit + keep) as the reference for record contents; bit-exactness is only demanded between '
+            'two executions of the same code path in one process; zero-byte outputs are outside the quantifier.',
+            'deterministic simulation: seeded scenarios over data/output streams, clock, prompt, crash/ENOSPC + restart, same-directory history and consumer histories on shared result objects; differential + twin oracles',
+            'DESIGN.md section 5 (C10), 12.3'),
     'C11': ('exploration',
             'History clause by simulation: one Fitter shared by two simulated users who interleave up to 6 fit calls over a pool of Source '
-            'objects (re-used objects, both users on the same object) with failing calls in between; every result is compared bit-exactly with '
-            'a fresh Fitter\'s, the Source, the model store and earlier results must be untouched. The permutation and flux-scaling clauses are '
-            'paired-world relations (pure; checked here only because the run owns both worlds): filters permuted with the photometry, models '
-            'permuted inside the package (re-authored + re-convolved), fluxes and errors scaled over 8 decades.',
+            'objects (re-used objects, both users on the same object, in-place edits of a Source through its arrays between fits) with failing '
+            'calls in between; every result is compared bit-exactly with a fresh Fitter\'s on a fresh Source of the current content; the '
+            'Source, the model store and earlier results (arrays and metadata) must be untouched, also after other Fitters on other packages '
+            'have run. The permutation and flux-scaling clauses are paired-world relations (pure; checked here only because the run owns both '
+            'worlds).',
             'Bit-equality only between identically constructed Fitters in one process; paired-world numerics within 1e-9 and only for '
             'well-conditioned regressions; rankings may differ inside exact ties.',
-            'deterministic simulation: seeded interleavings of calls by two users on one shared Fitter with failing calls as faults, fresh-fitter differential oracle; paired-world relations',
+            'deterministic simulation: seeded interleavings of calls and in-place edits by two users on one shared Fitter with failing calls as faults, fresh-fitter differential oracle; paired-world relations',
             'DESIGN.md section 5 (C11)'),
-    'C17': ('exploration',
-            'Cross-stage simulated runs: cube packages (single-aperture distance-independent, multi-aperture distance-dependent, f4/f8, either '
-            'spectral storage order) fitted at tabulated wavelengths with stored predictions (memmap on/off), then histories of plot() calls in '
-            'all four display modes with N=1..5, memmap knob, via the path or the result object, optionally after another consumer ran on the same '
-            'object. From the returned LineCollection: number of curves = fits x apertures shown, best fit drawn last, and at every fitted '
-            'wavelength the curve for that filter\'s aperture passes through 10^model_fluxes mJy x nu within 1e-3.',
-            'No rendering (output_dir=None); 1e-3 covers the KPC constant in plot.py (2.1e-4); aperture radii kept >= 2 % inside the table; >= 2 '
-            'distinct apertures.',
-            'deterministic simulation: seeded fit->plot histories over channels, prior consumers and memmap/storage knobs; stored-prediction cross-stage oracle',
-            'DESIGN.md section 5 (C17)'),
     'C12': ('exploration',
             'Storage round trip in the shape of a simulated store: seeded histories of puts and gets of SEDs, cubes and convolved-flux tables on '
-            'a small shared directory against an in-memory map, with overwrites by objects of another shape, read knobs (order, stored unit, '
-            'memmap) and cube objects that stay memory-mapped across an overwrite of their file. Cells are matched by (model name, aperture '
-            'value, wavelength value). The statement is fault-free, so no fault is injected: the simulator contributes the operation histories '
-            'and knobs; the cell comparison itself is ordinary model-based checking, and it is claimed at that level.',
+            'a small shared directory (including x.fits next to x.fits.gz) against an in-memory map, with overwrites by objects of another shape, '
+            'read knobs (order, stored unit, memmap) and cube objects that stay memory-mapped across an overwrite of their file. Cells are matched '
+            'by (model name, aperture value, wavelength value). The statement is fault-free, so no fault is injected: the simulator contributes '
+            'the operation histories and knobs; the cell comparison itself is ordinary model-based checking, and it is claimed at that level.',
             'SED values within 1e-12 (read multiplies and divides by nu), cube/convolved cells exactly; for an SED written without apertures '
             'only the single row of values is required.',
             'deterministic simulation (narrow): seeded put/get/overwrite histories on real files against an in-memory reference map, no fault injection (fault-free statement)',
             'DESIGN.md section 5 (C12)'),
+    'C16': ('exploration',
+            'The memory limit is treated as a tuning knob that must not change the result: for every seeded per-file world and every '
+            'generated wavelength window the monochromatic convolver is run with EVERY chunk size 1..n_wav plus the default, each into a fresh '
+            'convolved/ under a permuted directory listing, optionally after a prelude epoch (a previous package convolved in the same directory '
+            'and process); the returned table, the set of files, FILTWAV, row order and every cell are compared with the author\'s arrays, and a '
+            'digest of (files, contents) must be identical across chunk sizes. Cube clause: Fitters with wavelength "filters" (any length unit) '
+            'at/between/outside tabulated wavelengths, memmap on/off, cube in either spectral order. Worlds and windows are sampled by seed; the '
+            'chunk-size dimension is enumerated completely for each.',
+            'Window ends that coincide with a tabulated wavelength may go either way (but identically for all chunk sizes); empty windows and '
+            'half-way requests are outside the quantifier; float32 model store tolerance derived from float32 rounding of the flux and of its log10.',
+            'deterministic simulation: seeded worlds/windows x complete enumeration of the chunk-size knob under listing permutation and same-directory history; reference-array and cross-knob differential oracles',
+            'DESIGN.md section 5 (C16)'),
+    'C17': ('exploration',
+            'Cross-stage simulated runs: cube packages (single-aperture distance-independent, multi-aperture distance-dependent, f4/f8, either '
+            'spectral storage order) fitted at tabulated wavelengths given in any length unit, with stored predictions (memmap on/off), '
+            'optionally after a prelude epoch (a previous cube fitted and plotted in the same directory and process), then histories of plot() '
+            'calls in all four display modes with N=1..5, plot_max, show_convolved, memmap knob, via the path or the result object, optionally '
+            'after another consumer ran on the same object. From the returned LineCollection: number of curves = fits x apertures shown, best '
+            'fit drawn last, and at every fitted wavelength the curve for that filter\'s aperture passes through 10^model_fluxes mJy x nu within 1e-3.',
+            'No rendering (output_dir=None); 1e-3 covers the KPC constant in plot.py (2.1e-4); aperture radii kept >= 2 % inside the table; >= 2 '
+            'distinct apertures.',
+            'deterministic simulation: seeded fit->plot histories over channels, prior consumers, same-directory history and memmap/storage/unit knobs; stored-prediction cross-stage oracle',
+            'DESIGN.md section 5 (C17)'),
+    'C18': ('exploration',
+            'Seeded scenarios: real fit files of 1..10 sources routed by filter_output into two writers, chi|cpd thresholds over 8 decades '
+            '(including ones that send every source to one side), explicit or automatic names (found by directory diff), input as path or list, '
+            'and histories of up to 3 splits: a second split of the good/bad file, or re-filtering the same input with the earlier outputs still '
+            'lying around under the same names. Outputs are read with the harness pickle reader and compared record by record: union, '
+            'disjointness, order, membership, metadata, input untouched.',
+            'Trusts the input records (C10); thresholds equal to an attained value are not judged.',
+            'deterministic simulation: seeded record streams routed to two simulated output files, channels, compositions and left-over outputs; partition oracle',
+            'DESIGN.md section 5 (C18)'),
+    'C19': ('fault_enumeration',
+            'Seeded writer histories (fit() and filter_output() as writers over real packages, and records of 0..6000 fits built through the public '
+            'class and written by the real FitInfoFile.write; 1..4 records, with/without stored fluxes) crossed with crash points: every byte offset '
+            'of every written file in thorough (boundaries +-3, all offsets of small files and a seeded sample in quick), plus crash/ENOSPC '
+            'injected into the live writer through the open seam and a concurrent reader run from inside the writer\'s write/readline events. '
+            'Evidence, not proof: the history space is sampled, the offsets of each sampled history are enumerated (large synthetic files: '
+            'boundaries + a dense seeded sample).',
+            'Trusts: pickle and numpy of the sandbox; that a crash leaves exactly the bytes whose write() returned plus a prefix of the '
+            'cut write (unbuffered SimFile); ground truth for "written records" is sedfitter\'s reader on the complete file (and, for the '
+            'synthetic family, the objects handed to the writer).',
+            'deterministic simulation: seeded histories x enumerated crash offsets, live crash/ENOSPC fault injection via injected open(), observer reads at seam events',
+            'DESIGN.md section 5 (C19)'),
 }
 
 NOT_APPLICABLE = {
